@@ -638,13 +638,23 @@ func c11Body(tape *simrt.Tape, o simwork.Opts, res *simwork.Result) {
 			}
 		}
 		var gotPass []string
+		wrapperLines := 0
 		for _, l := range errP.lines {
 			if strings.HasPrefix(l, "referenceserver: scripted server:") {
-				continue // the in-process wrapper prints the process's own error to its stderr
+				// the in-process seam prints the error the process ended with to the
+				// process's stderr: that is stderr output like any other
+				wrapperLines++
+				if server.retErr == nil || !strings.Contains(l, server.retErr.Error()) {
+					viol("c11/stderr-passthrough", "unexpected line %q (the server process ended with %v)", l, server.retErr)
+				}
+				continue
 			}
 			if strings.HasPrefix(l, "referenceserver: ") {
 				gotPass = append(gotPass, strings.TrimSuffix(strings.TrimPrefix(l, "referenceserver: "), "\n"))
 			}
+		}
+		if server.exited && server.retErr != nil && wrapperLines != 1 && !server.killed {
+			viol("c11/stderr-passthrough", "the server process ended with the error %q, which the in-process seam prints to its stderr; it was passed through %d times", server.retErr, wrapperLines)
 		}
 		if strings.Join(gotPass, "\x00") != strings.Join(wantPass, "\x00") {
 			viol("c11/stderr-passthrough", "stderr lines passed through: %q, want %q", gotPass, wantPass)
